@@ -501,13 +501,21 @@ def invariants(api):
             byname.setdefault(r.name, {})[r.version] = r
         chk({k: v.at_version for k, v in ns.routes_by_name.items()} == byname, 'routes_by_name mismatch')
         chk(ns.route_by_name == {r.name: r for r in ns.routes if r.version == 1}, 'route_by_name mismatch')
-        lin = ns.linearize_data_types()
+        try:
+            lin = ns.linearize_data_types()
+        except (Exception, RecursionError) as e:
+            bad.append('linearize_data_types raised %s' % type(e).__name__)
+            lin = list(ns.data_types)
         chk(sorted(d.name for d in lin) == tn and len(lin) == len(tn), 'linearize_data_types not a permutation')
         pos = {d.name: i for i, d in enumerate(lin)}
         for d in lin:
             if d.parent_type is not None and d.parent_type.namespace is ns:
                 chk(pos.get(d.parent_type.name, 1e9) < pos[d.name], 'linearization: parent after child')
-        lal = ns.linearize_aliases()
+        try:
+            lal = ns.linearize_aliases()
+        except (Exception, RecursionError) as e:
+            bad.append('linearize_aliases raised %s' % type(e).__name__)
+            lal = list(ns.aliases)
         chk(sorted(a.name for a in lal) == an and len(lal) == len(an), 'linearize_aliases not a permutation')
         pos = {a.name: i for i, a in enumerate(lal)}
         def nested_aliases(dt, depth=0):
